@@ -4,7 +4,9 @@
 (* perfect delivery; then a signer set of at least t participants signs.    *)
 EXTENDS Frost, Json
 
-CONSTANTS Shapes, IdSets, A0Choices, CoeffChoices, KChoices, RandChoices, Msg, MaxExtra, EMIT
+CONSTANTS Shapes, IdSets, A0Choices, CoeffChoices, KChoices, RandChoices, Msg, MaxExtra,
+          SweepSigners,   \* shape sweeps: only the t smallest and the t largest identifiers sign
+          EMIT
 
 VARIABLES pc, sc
 vars == <<fvars, pc, sc>>
@@ -49,6 +51,7 @@ Choose ==
   /\ pc[1] = "choose"
   /\ \E S \in SUBSET IdSet :
        /\ Card(S) >= sc.t /\ Card(S) <= sc.t + MaxExtra
+       /\ SweepSigners => S \in {{sc.ids[k] : k \in 1..sc.t}, {sc.ids[k] : k \in (sc.n - sc.t + 1)..sc.n}}
        /\ sc' = sc @@ [S |-> Sorted(S)]
   /\ pc' = <<"commit", 1>>
   /\ UNCHANGED fvars
